@@ -112,7 +112,7 @@ struct WorldQ : World {
   void plant(const Json &op);
   void finish_c01(); void finish_c03();
   bool enabled(const std::string &oracle) const;
-  std::set<std::string> oracles_off;
+  std::set<std::string> oracles_off, oracles_on;
 };
 
 // bit positions in pattern
